@@ -1,15 +1,37 @@
 /-
   C09 — scoped combinators leave the surrounding parse configuration intact.
-  INTERIM file.  Proved here: the contexts handed to wrapped parsers by
-  `unrecoverable` / `raw` are derived values — the enclosing context is passed
-  unchanged to the next sibling (`both` runs its right parser with the very
-  context its left parser was given, whatever the left parser is), and the
-  filter-scoping combinators re-install exactly the filter they replaced.
-  The interpreter-wide frame theorem (`run` preserves the lexer's filter on
-  success, for every grammar) is in progress; the `scoped` family + oracle
-  carries the statement meanwhile.
+
+  English.  The parse configuration surrounding a parser is (a) the lexer's
+  token filter, column metrics and text length, (b) the error context, (c) what
+  has already been reported.
+
+  * `C09_filter_frame`: for EVERY grammar of the combinator family (all
+    constructors of `G`: primitives, joins, alternatives, options, repetitions,
+    `filter_with` / `unfiltered`, `sub`, `spanned`, `text`, `recover*`,
+    `stabilize`, `bracket*`, `list*`, `up_to`, context operations), every fuel,
+    lexer, context and world: when the run returns successfully, the lexer it
+    returns has the filter, the metrics and the length of the lexer it was
+    given.  In particular after a filter-scoping combinator returns the filter
+    is the one in force before, however the wrapped parser ended (by success of
+    an inner `maybe`, a recovery, a bracket match, …).
+  * `C09_context_by_value`: a context is a value; `both`, `left`, `right`,
+    `center` run every one of their parsers with exactly the context the
+    combinator was given, whatever the earlier siblings did with theirs
+    (`unrecoverable`, `raw`, pushes, locks).
+  * `C09_world_frame`: a run never removes or rewrites anything already
+    reported: the sink log and the probe log before the run are prefixes of the
+    logs after it (for every grammar and outcome, failure and panic included).
+  * The interim theorems (sibling context of `both`, `unfiltered` re-installs
+    the replaced filter) are kept.
+
+  Lean: `run` is the model of the combinators (TephraModel.Run), checked against
+  the Rust on the generated families; `Lexer.filter/metrics/len` are the fields
+  of the lexer model.  Unbounded: any grammar, scanner, filter table, lexer
+  state, fuel, world.
 -/
 import TephraModel.Run
+import TephraProofs.Frame
+import TephraProofs.WorldFrame
 
 namespace Tephra.Props
 open Tephra
@@ -40,5 +62,62 @@ theorem C09_unfiltered_restores (R : RunEnv) (n : Nat) (a : G) (lx lx2 : Lx) (ct
 theorem C09_set_filter_installs (E : LexEnv Nat Tok) (lx : Lx) (f : Option Nat) :
     (lx.setFilter E f).1 = lx.filter := by
   simp [Lexer.setFilter]
+
+/-! ### the interpreter-wide theorems -/
+
+theorem C09_filter_frame (R : RunEnv) (n : Nat) (g : G) (lx : Lx) (ctx : Ctx) (W : World) (v : Val) (lx' : Lx)
+    (h : (run R n g lx ctx W).1 = .ok v lx') :
+    lx'.filter = lx.filter ∧ lx'.metrics = lx.metrics ∧ lx'.len = lx.len :=
+  Frame.run_frame R n g lx ctx W v lx' h
+
+/-- `both` / `left` / `right` / `center`: if the earlier siblings succeed, the
+whole is computed from runs of the later ones under the *same* `ctx`. -/
+theorem C09_context_by_value (R : RunEnv) (n : Nat) (a b c : G) (lx lx1 : Lx) (ctx : Ctx) (W W1 : World) (v : Val)
+    (h : run R n a lx ctx W = (.ok v lx1, W1)) :
+    (run R (n + 1) (.both a b) lx ctx W =
+      match run R n b lx1 ctx W1 with
+      | (.ok v2 lx2, W2) => (.ok (.pair v v2) lx2, W2)
+      | r => r) ∧
+    (run R (n + 2) (.left a b) lx ctx W =
+      match run R n b lx1 ctx W1 with
+      | (.ok _ lx2, W2) => (.ok v lx2, W2)
+      | r => r) ∧
+    (run R (n + 2) (.right a b) lx ctx W =
+      match run R n b lx1 ctx W1 with
+      | (.ok v2 lx2, W2) => (.ok v2 lx2, W2)
+      | r => r) ∧
+    (run R (n + 1) (.center a b c) lx ctx W =
+      match run R n b lx1 ctx W1 with
+      | (.ok v2 lx2, W2) =>
+        match run R n c lx2 ctx W2 with
+        | (.ok _ lx3, W3) => (.ok v2 lx3, W3)
+        | r => r
+      | r => r) := by
+  refine ⟨?_, ?_, ?_, ?_⟩ <;> simp only [run, h]
+  · rcases run R n b lx1 ctx W1 with ⟨_ | _ | _ | _, W2⟩ <;> rfl
+  · rcases run R n b lx1 ctx W1 with ⟨_ | _ | _ | _, W2⟩ <;> rfl
+  · rcases run R n b lx1 ctx W1 with ⟨_ | _ | _ | _, W2⟩ <;> rfl
+  · rcases run R n b lx1 ctx W1 with ⟨_ | _ | _ | _, W2⟩ <;> rfl
+
+/-- `center`: all three succeed under the one context. -/
+theorem C09_sibling_context_center (R : RunEnv) (n : Nat) (a b c : G) (lx lx1 lx2 lx3 : Lx) (ctx : Ctx)
+    (W W1 W2 W3 : World) (v v2 v3 : Val)
+    (h : run R n a lx ctx W = (.ok v lx1, W1))
+    (hb : run R n b lx1 ctx W1 = (.ok v2 lx2, W2))
+    (hc : run R n c lx2 ctx W2 = (.ok v3 lx3, W3)) :
+    run R (n + 1) (.center a b c) lx ctx W = (.ok v2 lx3, W3) := by
+  simp [run, h, hb, hc]
+
+theorem C09_world_frame (R : RunEnv) (n : Nat) (g : G) (lx : Lx) (ctx : Ctx) (W : World) :
+    W.log <+: (run R n g lx ctx W).2.log ∧ W.probes <+: (run R n g lx ctx W).2.probes :=
+  WorldFrame.run_world_prefix R n g lx ctx W
+
+/-- Non-vacuity of `C09_filter_frame`: `filter_with` around `empty` succeeds and
+the filter `some 7` of the incoming lexer is back in force although the body
+ran under `some 3`. -/
+example (R : RunEnv) (lx : Lx) (h : lx.filter = some 7) (ctx : Ctx) (W : World) :
+    ∃ v lx', (run R 2 (.filterWith 3 .empty) lx ctx W).1 = .ok v lx' ∧ lx'.filter = some 7 := by
+  refine ⟨.unit, ((lx.setFilter R.E (some 3)).2.setFilter R.E lx.filter).2, by simp [run], ?_⟩
+  rw [LexInv.setFilter_filter, h]
 
 end Tephra.Props
